@@ -14,6 +14,9 @@ for name, wild in [('glob', '* -> .*, ? -> .'), ('like', '% -> .*, _ -> . (and *
     OBLIGATIONS.append(ob(f'C12.{name}.noerror', G + f'c12_{name}_no_error_arm', f'no captured token of the {name} alternation reaches the error_exit arm', units=['globtables']))
 OBLIGATIONS.append(ob('C12.cache.keys', 'verif_frag::regexkeys::c12_cache_keys', 'the regex cache keys used by the glob (= !=), regex (=~ !=~) and LIKE arms of conforms are pairwise distinct for the same pattern text (3 concrete texts), so `A or B` with the same literal under two operator kinds evaluates each with its own regex', units=['regexkeys'], complete=False, bound='3 concrete pattern texts'))
 OBLIGATIONS.append(ob('C12.cache.injective', 'verif_frag::regexkeys::c12_cache_keys_injective', 'different pattern texts give different keys (2 witnesses)', units=['regexkeys'], complete=False, bound='2 concrete pairs'))
+for _n in ['eq', 'ne', 'eeq', 'ene', 'rx', 'notrx', 'like', 'notlike']:
+    OBLIGATIONS.append(ob(f'C12.op.table.{_n}', OPS + f'c11_op_{_n}', f'Op::from maps every documented spelling of the operator `{_n}` to that operator (same harness as C11.alias.op.{_n})', engine='K', units=['operators']))
+OBLIGATIONS.append(ob('C12.op.negation', OPS + 'c03_negate_contract', 'each negative operator is the documented complement of its positive counterpart: contract of Op::negate (same as C03.negate.pairs)', engine='K', units=['operators'], twin=OPS + 't03_negate_pairs'))
 CANARIES = [dict(harness=G + 'canary_glob_must_fail', units=['globtables'])]
 ASSUMPTIONS = ['printable ASCII only (the property alphabet); non-ASCII characters are not regex metacharacters']
 NOT_COVERED = ['anchoring ^..$ and case-insensitivity (?i)', 'the regex engine itself', 'the Eq/Ne/Like/NotLike/Rx branches of conforms and the shared regex_cache keyed by pattern text', 'is_glob']
